@@ -1,6 +1,7 @@
 import Proofs.Lemmas.Temp
 import Proofs.Lemmas.TempBound
 import Generated.C12TempVm
+import Proofs.Lemmas.TempShared
 /-!
 # C12 — request-scoped VMs are isolated: temporary definitions never leak
 
@@ -300,5 +301,68 @@ example : leaky witnessDisk (run witnessDisk []) (.getOrLoadInterface (.temp 0) 
 example : NoLeak witnessDisk {} demo := by decide
 
 example : (tables witnessDisk demo .base .cls 7).isSome := by decide
+
+end C12
+
+/-! ## Code parsed once on the base VM, executed through several VMs (`Model.TempShared`)
+
+The body of a function / method / closure defined on the base VM is ONE AST; every TempVM that
+calls it executes the same nodes, and a declaration statement inside registers into whichever
+VM runs it. Statements over every history (any length, any number of TempVMs, any bodies with
+plain and `function_exists`-guarded declarations, colliding names, shared nodes). -/
+namespace C12
+open Model.TempShared
+
+/-- **Noninterference for shared bodies.** With a declaration statement that consults nothing
+but the executing VM (the pinned tree), what VM `v` resolves after any history is what it
+resolves after only its own and the base's operations: it is as if `v` were the first VM ever
+to run each body. -/
+theorem C12_shared_body_noninterference : NonInterfering ⟨false⟩ := noflag_nonInterfering
+
+/-- the history of the negation witness: TempVM 0, then TempVM 1 run the same body -/
+def flagWitness : List Op :=
+  [.run (.temp 0) [{ node := 0, name := 5 }], .run (.temp 1) [{ node := 0, name := 5 }]]
+
+/-- **Negation witness.** A "declared" flag kept on the (shared) declaration node: TempVM 0 runs
+the body, TempVM 1 runs it — TempVM 1 does not get the function it would have got alone. -/
+theorem C12_node_flag_breaks_noninterference : ¬ NonInterfering ⟨true⟩ := by
+  intro h
+  have := h flagWitness (.temp 1) 5
+  revert this
+  decide
+
+/-- what a VM resolves is independent of what other TempVMs did with shared code **iff** the
+declaration statement keeps no state on its node -/
+theorem C12_shared_body_noninterference_iff (impl : Impl) :
+    NonInterfering impl ↔ impl.nodeFlag = false := by
+  cases impl with
+  | mk f =>
+    cases f with
+    | false => exact ⟨fun _ => rfl, fun _ => C12_shared_body_noninterference⟩
+    | true => exact ⟨fun h => absurd h C12_node_flag_breaks_noninterference, fun h => by cases h⟩
+
+/-- why the step-by-step snapshot oracle cannot see node state: whatever the implementation keeps
+on nodes, an operation of another TempVM changes nothing `v` resolves *at that step* — the
+damage shows only when `v` itself runs the body later -/
+theorem C12_snapshot_isolation_blind_to_node_state (impl : Impl) (v : VM) (o : Op) (s : State) (n : Nat)
+    (h : keeps v o = false) : resolve (step impl s o) v n = resolve s v n :=
+  sees_resolve (step_drop impl h s) n
+
+/-- obligation on the regenerated facts (`extract/c12`, package `node`): every function that
+calls a defining VM method assigns no field of its AST node and no package-level variable
+(known: `IncludeCore`), and the resolve-once caches on use nodes are exactly the known ones -/
+theorem C12_declaration_nodes_stateless :
+    NodesStateless Generated.C12TempVm.nodeFactsError Generated.C12TempVm.nodeFacts := by decide
+
+/-- what the obligation means: a defining node function outside the known list is modelled by
+`nodeFlag = false`, hence noninterfering -/
+theorem C12_nodesStateless_sound (err : Option String) (facts : List NodeFact)
+    (hw : NodesStateless err facts) (f : NodeFact) (hf : f ∈ facts) (hd : f.defining = true)
+    (hk : KnownStateful.contains (f.typ, f.method) = false) : NonInterfering (implOf f) := by
+  have hall := List.all_eq_true.mp hw.2.2 f hf
+  simp only [hd, if_true, statelessOrKnown, hk, Bool.or_false, Bool.and_eq_true] at hall
+  have : implOf f = ⟨false⟩ := by simp [implOf, hall.1]
+  rw [this]
+  exact C12_shared_body_noninterference
 
 end C12
